@@ -4,21 +4,32 @@
     python bounded/sched_small.py --pid C10|C12|C13|C15 --tier quick|thorough --seed N --out f.json
 
 Exhaustive small-scope enumeration of scheduler inputs, REAL `schedule()` bodies, oracle = contracts
-written from the property statements with an independent ledger (plain dict arithmetic over
-per-worker per-resource-name capacities).  Two families of cases:
+written from the property statements and evaluated on an independent ledger (plain dict arithmetic
+over per-worker per-resource-name capacities, 'any' ids; deadlines / releases / runtimes as the
+integers of the case specification, never read back from the repo's helpers).  Two families:
 
-* greedy worlds  (C10, C12, C13): one invocation of EDF/FIFO/LSF on a small world =
-  cluster (1-2 pools x 1-2 workers, GPU/CPU capacities 0-2) x occupancy (nothing / one RUNNING task)
-  x multiset of <= 3 (quick) or <= 4 (thorough) offered tasks, each (deadline, release, strategy list)
-  with ties, x scheduler options (preemptive, enforce_deadlines), 1 or 2 task graphs, distractor
-  tasks (VIRTUAL, released in the future, CANCELLED, SCHEDULED) that must not be answered.
+* greedy worlds (C10, C12, C13): ONE invocation of EDF/FIFO/LSF at now=10 on a small world =
+  13 cluster states (6 clusters of 1-2 pools x 1-2 workers with <=2 GPU / <=1 CPU, empty or with
+  one RUNNING task that was released/scheduled/placed/started/stepped through the real methods,
+  plus 4 distractor tasks VIRTUAL / released-in-the-future / CANCELLED / SCHEDULED that must not be
+  answered) x multisets of offered tasks (deadline in {9 past, 14, 16, 30}, release in {2, 6},
+  5 ordered strategy lists over {GPU:1}, {GPU:2}, {CPU:1,GPU:1}, {CPU:1}, with ties) x scheduler
+  options (preemptive on/off for EDF and LSF, enforce_deadlines on/off for EDF and FIFO), tasks in
+  1 or 2 task graphs.  quick: all multisets of <=2 tasks over the 40 task types + all multisets of
+  3 tasks over 15 (C12: 20) (deadline, strategy-list) types + 1500 seeded 4-task multisets;
+  thorough: <=3 over 40 types + 4 over 20 types.  (`retract_schedules` is not a parameter of these policies.)
 * Clockwork histories (C10, C12, C15): the real ClockworkScheduler driven over 3 successive
-  invocations; requests (model, arrival invocation, deadline) arrive, the returned placements are
-  applied the way simulator.py applies them (cancel -> TaskGraph.cancel, evict/load profile,
-  Task.schedule + WorkerPool.place_task + Task.start, stepping workers, finishing tasks).
+  invocations (t=0,3,6); requests (model A|B, arrival invocation, deadline offset in {2,3,5,9})
+  arrive, every returned placement set is judged, then applied the way simulator.py applies it
+  (CANCEL_TASK -> TaskGraph.cancel; EVICT/LOAD profile on the pool; Task.schedule +
+  WorkerPool.place_task(worker_id, BatchStrategy) + Task.start; workers stepped to the next
+  invocation, finished tasks removed/finished/notified).  Models have batch-size strategies out of
+  {1,2,4} (one variant needs 2 GPUs), 7 worker/loading configurations (loaded / partially loaded /
+  unloaded workers, 1-2 pools, two of them with the model-loading thread `run_load` on), both goals.
 
+A case = one real schedule() call on one world (greedy) or one 3-invocation history (clockwork).
 The text between the CORE markers is self-contained (no dependency on /verif) and is embedded
-verbatim in every replay script.
+verbatim in every replay script, so a replay re-judges the concrete input with the same contract.
 """
 import os
 import sys
@@ -436,7 +447,7 @@ def check_greedy(W, cfg):
             continue
         if len(ds) > 1:
             dup = True
-            viol.append(V("%s.duplicate_decision" % policy, ["C10"], "%s: task %s received %d decisions; contract: at most one decision (placed, not placed, or cancel) per task" % (ctx2, T[ti]["name"], len(ds))))
+            viol.append(V("%s.duplicate_decision" % policy, ["C10"], "%s: task %s received %d decisions; contract: at most one decision (placed, not placed, or cancel) per task (diagnosis: with preemption every TaskGraph.get_schedulable_tasks appends worker_pools.get_placed_tasks(), so a placed task is offered once per task graph of the workload)" % (ctx2, T[ti]["name"], len(ds))))
         if ti not in offered:
             viol.append(V("%s.decision_for_unoffered_task" % policy, ["C10"], "%s: task %s (%s, state %s) was not offered but received a decision" % (ctx2, T[ti]["name"], T[ti]["kind"], T[ti]["obj"].state)))
     for ti in offered:
@@ -481,7 +492,7 @@ def check_greedy(W, cfg):
         if t["kind"] == "running":
             # a started task: it can finish by its deadline iff now + remaining <= deadline
             if cancelled and NOW + t["remaining"] <= t["deadline"]:
-                viol.append(V("%s.running_task_cancelled" % policy, ["C10", "C12"], "%s: RUNNING task %s (remaining %d, finishes at %d <= deadline %d) is answered with a cancellation; contract: only a task that cannot finish by its deadline is cancelled, and decisions are for tasks that have not started (Task.cancel refuses RUNNING tasks)" % (ctx2, t["name"], t["remaining"], NOW + t["remaining"], t["deadline"])))
+                viol.append(V("%s.running_task_cancelled" % policy, ["C10", "C12"], "%s: RUNNING task %s (remaining %d, finishes at %d <= deadline %d) is answered with a cancellation; contract: only a task that cannot finish by its deadline is cancelled, and decisions are for tasks that have not started.  Consequence: Simulator.__handle_scheduler_finish turns CANCEL_TASK into TaskGraph.cancel -> Task.cancel, which raises ValueError for a RUNNING task" % (ctx2, t["name"], t["remaining"], NOW + t["remaining"], t["deadline"])))
             continue
         if not enforce:
             continue
@@ -915,7 +926,10 @@ REL_PATTERNS = [(6, 2, 6, 2), (2, 6, 2, 6), (2, 2, 6, 6), (6, 6, 2, 2)]
 def greedy_specs(tier, seed, pid):
     """deterministic list of greedy world specs"""
     full = [(d, r, s) for d in G_DEADLINES for r in G_RELEASES for s in sorted(G_STRATSETS)]  # 40 task types
-    red = [(d, s) for d in G_DEADLINES for s in sorted(G_STRATSETS)]  # 20 (deadline, strategy list) types
+    # (deadline, strategy list) types for the largest multisets; the past deadline 9 only matters for the
+    # admission clause, so the quick tier keeps it there for C12 only (it is always present for <=2 tasks)
+    red_deadlines = G_DEADLINES if (tier == "thorough" or pid == "C12") else [d for d in G_DEADLINES if d >= NOW]
+    red = [(d, s) for d in red_deadlines for s in sorted(G_STRATSETS)]
 
     def with_rel(ms, j):
         pat = REL_PATTERNS[j % len(REL_PATTERNS)]
@@ -955,8 +969,8 @@ def greedy_specs(tier, seed, pid):
                 specs.append({"cluster": K, "occ": oi, "tasks": list(ms), "graphs": 1, "distract": False})
     for i, s in enumerate(specs):
         s["seed"] = (seed * 1000003 + i) & 0x7FFFFFFF
-    desc = "all %d multisets of <=%d offered tasks over 40 task types (4 deadlines incl. past/tight/loose x 2 releases x 5 strategy lists) + all %d multisets of %d tasks over 20 (deadline, strategy list) types with the releases cycling through 4 fixed patterns%s; 2-graph variant (%d multisets of 1-2 tasks) on %s" % (
-        n1, n_full, n2, n_full + 1, "" if not sampled else " + %d seeded 4-task multisets" % len(sampled), len(two_graph), "every cluster state" if tier == "thorough" else "the occupied cluster states")
+    desc = "all %d multisets of <=%d offered tasks over 40 task types (4 deadlines incl. past/tight/loose x 2 releases x 5 strategy lists) + all %d multisets of %d tasks over %d (deadline, strategy list) types with the releases cycling through 4 fixed patterns%s; 2-graph variant (%d multisets of 1-2 tasks) on %s" % (
+        n1, n_full, n2, n_full + 1, len(red), "" if not sampled else " + %d seeded 4-task multisets" % len(sampled), len(two_graph), "every cluster state" if tier == "thorough" else "the occupied cluster states")
     return specs, desc
 
 
@@ -968,19 +982,28 @@ def cw_specs(tier, seed, pid):
     mid = [(m, k, off) for m in "AB" for k in range(len(CW_TIMES)) for off in (3, 9)]  # 12
     reduced = [(m, k, off) for m in "AB" for k in (0, 1) for off in (5, 9)]  # 8
     multisets = []
-    if tier == "thorough":
+    if tier == "thorough" and pid == "C15":
         for n in range(0, 5):
             multisets.extend(itertools.combinations_with_replacement(full, n))
         multisets.extend(itertools.combinations_with_replacement(reduced, 5))
         bound = "all multisets of <=4 requests over %d request types + of 5 requests over %d types" % (len(full), len(reduced))
+    elif tier == "thorough":
+        for n in range(0, 4):
+            multisets.extend(itertools.combinations_with_replacement(full, n))
+        multisets.extend(itertools.combinations_with_replacement(mid, 4))
+        multisets.extend(itertools.combinations_with_replacement(reduced, 5))
+        bound = "all multisets of <=3 requests over %d request types + of 4 requests over %d types + of 5 requests over %d types" % (len(full), len(mid), len(reduced))
     else:
         for n in range(0, 3):
             multisets.extend(itertools.combinations_with_replacement(full, n))
         multisets.extend(itertools.combinations_with_replacement(mid, 3))
-        big = (4, 5) if pid == "C15" else (4,)
-        for n in big:
-            multisets.extend(itertools.combinations_with_replacement(reduced, n))
-        bound = "all multisets of <=2 requests over %d request types + of 3 requests over %d types + of %s requests over %d types" % (len(full), len(mid), "/".join(map(str, big)), len(reduced))
+        multisets.extend(itertools.combinations_with_replacement(reduced, 4))
+        bound = "all multisets of <=2 requests over %d request types + of 3 requests over %d types + of 4 requests over %d types" % (len(full), len(mid), len(reduced))
+        if pid == "C15":
+            # 5 requests: those with >= 4 requests of one model (a full batch of 4 plus one more request)
+            five = [ms for ms in itertools.combinations_with_replacement(reduced, 5) if max(sum(1 for m, _, _ in ms if m == x) for x in "AB") >= 4]
+            multisets.extend(five)
+            bound += " + the %d multisets of 5 requests over %d types in which one model has >= 4 requests" % (len(five), len(reduced))
     specs = []
     for pair in CW_PAIRS[tier]:
         for wk in sorted(CW_WORKERS):
